@@ -22,7 +22,16 @@ Attrs(r) == <<r.scaled, r.rng, r.factor>>
 Col(r, d) == {r.xs[i][d] : i \in 1..Len(r.xs)}
 AsQ(x) == Norm(x[1], x[2])
 
-Clauses(e, R, R2, B) ==     \* e: event, R: registers before, R2: registers after, B: ghost bases before
+(* a register the operation does not work on must still hold the same labelled samples with the same attributes (a silent    *)
+(* re-ordering through arrays shared with another data set is tolerated by the property and reported as drift only)        *)
+Same(a, b) == BagEq(Pairs(a), Pairs(b)) /\ Attrs(a) = Attrs(b)
+Untouched(e) == CASE e.op \in {"scale_range", "scale_factor", "shift", "revert", "concat", "shuffle", "move_boundaries"} -> {2, 3}
+                  [] e.op \in {"split_pieces", "split_without_labels", "split_labels"} -> {1}
+                  [] e.op = "remove" -> {3}
+                  [] e.op = "copy" -> {1, 3}
+                  [] e.op = "swap" -> {3}
+                  [] OTHER -> {}
+Clauses0(e, R, R2, B) ==     \* e: event, R: registers before, R2: registers after, B: ghost bases before
     LET r1 == R[1]  n1 == R2[1] IN
     CASE e.op \in {"scale_range", "scale_factor", "shift"} ->
            [ P_NoException |-> ~e.raised,
@@ -30,36 +39,45 @@ Clauses(e, R, R2, B) ==     \* e: event, R: registers before, R2: registers afte
                                      \A d \in 1..T.dim : /\ RMinOf(Col(n1, d)) = AsQ(e.args.lo)
                                                          /\ (Cardinality(Col(r1, d)) > 1 => RMaxOf(Col(n1, d)) = AsQ(e.args.hi)),
              P_LabelsStayAttached |-> n1.ls = r1.ls /\ Len(n1.xs) = Len(r1.xs),
-             P_OthersUntouched |-> R2[2] = R[2] /\ R2[3] = R[3] ]
+             P_OthersUntouched |-> Same(R2[2], R[2]) /\ Same(R2[3], R[3]) ]
       [] e.op = "revert" ->
            [ P_NoException |-> ~e.raised,
              P_RevertRestoresBase |-> (B[1].ok => BagEq(Pairs(n1), B[1].ps)) /\ ~n1.scaled,
-             P_OthersUntouched |-> R2[2] = R[2] /\ R2[3] = R[3] ]
+             P_OthersUntouched |-> Same(R2[2], R[2]) /\ Same(R2[3], R[3]) ]
       [] e.op \in {"split_pieces", "split_without_labels", "split_labels"} ->
            [ P_NoException |-> ~e.raised,
              P_SplitPreserves |-> BagEq(Pairs(R2[2]) \o Pairs(R2[3]),
                                         IF e.op = "split_labels" THEN SubSeqIdx(Pairs(r1), {i \in 1..Len(r1.ls) : r1.ls[i] >= 0}) ELSE Pairs(r1)),
              P_AttributesCarried |-> (R2[2].xs # <<>> => Attrs(R2[2]) = Attrs(r1)) /\ (R2[3].xs # <<>> => Attrs(R2[3]) = Attrs(r1)),
-             P_OthersUntouched |-> n1 = r1 ]
+             P_OthersUntouched |-> Same(n1, r1) ]
       [] e.op = "remove" ->
            [ P_BadRemoveRejectedUnchanged |-> e.args.bad => (e.raised /\ R2 = R),
              P_NoException |-> e.args.bad \/ ~e.raised,
              P_RemovePreserves |-> e.args.bad \/ BagEq(Pairs(n1) \o Pairs(R2[2]), Pairs(r1)),
              P_AttributesCarried |-> e.args.bad \/ (Attrs(n1) = Attrs(r1) /\ (R2[2].xs # <<>> => Attrs(R2[2]) = Attrs(r1))),
-             P_OthersUntouched |-> R2[3] = R[3] ]
+             P_OthersUntouched |-> Same(R2[3], R[3]) ]
       [] e.op = "concat" ->
            LET differ == R[2].xs # <<>> /\ R[3].xs # <<>> /\ Attrs(R[2]) # Attrs(R[3]) IN
            [ P_ConcatRefusesDifferentScaling |-> differ => (e.raised /\ R2 = R),
              P_NoException |-> differ \/ ~e.raised,
              P_ConcatPreserves |-> (differ \/ e.raised) \/ BagEq(Pairs(n1), Pairs(R[2]) \o Pairs(R[3])),
              P_AttributesCarried |-> (differ \/ e.raised \/ R[2].xs = <<>>) \/ Attrs(n1) = Attrs(R[2]),
-             P_OthersUntouched |-> R2[2] = R[2] /\ R2[3] = R[3] ]
+             P_OthersUntouched |-> Same(R2[2], R[2]) /\ Same(R2[3], R[3]) ]
       [] e.op \in {"shuffle", "move_boundaries"} ->
            [ P_NoException |-> ~e.raised,
              P_PermutationOnly |-> BagEq(Pairs(n1), Pairs(r1)) /\ Attrs(n1) = Attrs(r1),
-             P_OthersUntouched |-> R2[2] = R[2] /\ R2[3] = R[3] ]
+             P_OthersUntouched |-> Same(R2[2], R[2]) /\ Same(R2[3], R[3]) ]
       [] e.op = "swap" -> [ P_NoException |-> R2 = <<R[2], R[1], R[3]>> ]
+      [] e.op = "copy" ->        \* register 2 := copy() of register 1 (the library's own copy): an independent data set with the same content
+           [ P_NoException |-> ~e.raised,
+             P_CopyEqual |-> R2[2] = r1,
+             P_OthersUntouched |-> Same(n1, r1) /\ Same(R2[3], R[3]) ]
       [] OTHER -> [ P_NoException |-> TRUE ]
+
+Clauses(e, R, R2, B) ==
+    LET c0 == Clauses0(e, R, R2, B)
+        ident == \A i \in Untouched(e) : R2[i] = R[i]
+    IN  [n \in DOMAIN c0 \cup {"I_OthersIdentical"} |-> IF n = "I_OthersIdentical" THEN (e.raised \/ ident) ELSE c0[n]]
 
 (* ghost update.  base[i] = [ok, al, ps]: ps = (sample, label) pairs to be restored by a revert; ok = ps is   *)
 (* known as a bag; al = ps is index-aligned with the register (lost by shuffling a scaled set).              *)
@@ -81,10 +99,15 @@ RawNextBase(e, R, B) ==
                                       /\ (R[2].xs = <<>> \/ R[3].xs = <<>> \/ Attrs(R[2]) = Attrs(R[3]))   \* a merge that had to be refused has no base
                                    THEN Known(B[2].ps \o B[3].ps) ELSE Unknown, B[2], B[3]>>
       [] e.op = "swap" -> <<B[2], B[1], B[3]>>
+      [] e.op = "copy" -> IF e.raised THEN B ELSE <<B[1], B[1], B[3]>>
       [] e.op \in {"shuffle", "move_boundaries"} -> <<[B[1] EXCEPT !.al = FALSE], B[2], B[3]>>
       [] OTHER -> B
 (* an unscaled register is its own base *)
-NextBase(e, R, R2, B) == LET nb == RawNextBase(e, R, B) IN [i \in 1..3 |-> IF R2[i].scaled THEN nb[i] ELSE Known(Pairs(R2[i]))]
+NextBase(e, R, R2, B) ==
+    LET nb == RawNextBase(e, R, B)
+        \* a register that was silently re-ordered is no longer index-aligned with its base
+        nb2 == [i \in 1..3 |-> IF i \in Untouched(e) /\ R2[i] # R[i] THEN [nb[i] EXCEPT !.al = FALSE] ELSE nb[i]]
+    IN  [i \in 1..3 |-> IF R2[i].scaled THEN nb2[i] ELSE Known(Pairs(R2[i]))]
 
 Init == /\ tid \in 1..NTraces /\ l = 1
         /\ regs = Traces[tid].events[1].regs
